@@ -68,7 +68,7 @@ def outbound_entries(be, se, bc, sc):
             ["listClientOrderId", "limitClientOrderId", "stopClientOrderId"])
         E[f"binance.{acc_name}.oco.no_stop_limit"] = (
             lambda x, acc=acc: acc.create_oco_order(BUY, PB, x, x, x), "POST", oco_path,
-            dict(symbol="BTCUSDT", side="BUY"), ["quantity", "price", "stopPrice"], ["stopLimitPrice"])
+            dict(symbol="BTCUSDT", side="BUY"), ["quantity", "price", "stopPrice"], ["stopLimitPrice", "stopLimitTimeInForce"])
     E["binance.cross.transfer_in"] = (lambda x: be.cross_margin_account.transfer_from_spot_account("BTC", x), "POST",
                                       "/sapi/v1/margin/transfer", dict(asset="BTC", type="1"), ["amount"], [])
     E["binance.cross.transfer_out"] = (lambda x: be.cross_margin_account.transfer_to_spot_account("BTC", x), "POST",
@@ -123,6 +123,9 @@ def scenarios(tier, seed):
         from worlds import payloads
         out += [("in", w["name"]) for w in payloads.WRAPPERS]
         out += [("sums", w["name"]) for w in payloads.WRAPPERS if w["name"].endswith(".OrderInfo")]
+        # the same timestamp checks with a local time zone that is not UTC (decoders must not depend on it)
+        out += [("in-tz", w["name"], tz) for w in payloads.WRAPPERS for tz in ("EST5EDT,M3.2.0,M11.1.0", "IST-5:30")
+                if w.get("ms_timestamps") or w.get("us_timestamps") or w.get("iso_timestamps")]
     except ImportError:
         pass
     return out
@@ -220,7 +223,7 @@ def us_values(step):
     return out
 
 
-def _inbound(name, tier, res):
+def _inbound(name, tier, res, only_timestamps=False, tag=""):
     from worlds import payloads
     w = next(x for x in payloads.WRAPPERS if x["name"] == name)
 
@@ -241,7 +244,7 @@ def _inbound(name, tier, res):
         res.outcomes["ok" if not bad else "bad"] += 1
         for clause, detail in bad:
             res.violation(f"{PROPERTY}:in:{clause}:{name}", f"{detail}; {case}", case, size=1)
-    for prop, path in w.get("decimals", {}).items():
+    for prop, path in ({} if only_timestamps else w.get("decimals", {})).items():
         for x in DECIMALS:
             for text in dict.fromkeys((format(x, "f"), str(x))):
                 bad = []
@@ -254,7 +257,7 @@ def _inbound(name, tier, res):
                 except Exception as e:  # noqa
                     bad.append(("exception", f"{prop} on {text!r}: {type(e).__name__}: {e}"))
                 record((name, prop, text), "E" in text or "." in text, bad, dict(kind="in", wrapper=name, property=prop, value=text))
-    for prop, path in w.get("decimals", {}).items():
+    for prop, path in ({} if only_timestamps else w.get("decimals", {})).items():
         if list(path) not in [list(p2) for p2 in w.get("float_fields", [])]:
             continue
         # the exchange sends this field as a JSON number: the decoded decimal must be the number that was printed
@@ -278,7 +281,7 @@ def _inbound(name, tier, res):
                     bad.append(("ms-timestamp", f"{prop} decoded {ts} as {got!r}, expected {exp!r}"))
             except Exception as e:  # noqa
                 bad.append(("exception", f"{prop} on {ts}: {type(e).__name__}: {e}"))
-            record((name, prop, ts), ts % 1000 != 0, bad, dict(kind="in", wrapper=name, property=prop, value=ts))
+            record((name, prop, ts, tag), ts % 1000 != 0, bad, dict(kind="in", wrapper=name, property=prop, value=ts))
     for prop, path in w.get("us_timestamps", {}).items():
         base_is_str = isinstance(_get(w["payload"], path), str)
         for ts in us_values(BOUNDS[tier]["us_step"]):
@@ -290,7 +293,7 @@ def _inbound(name, tier, res):
                     bad.append(("us-timestamp", f"{prop} decoded {ts} as {got!r}, expected {exp!r}"))
             except Exception as e:  # noqa
                 bad.append(("exception", f"{prop} on {ts}: {type(e).__name__}: {e}"))
-            record((name, prop, ts), ts % 1_000_000 != 0, bad, dict(kind="in", wrapper=name, property=prop, value=ts))
+            record((name, prop, ts, tag), ts % 1_000_000 != 0, bad, dict(kind="in", wrapper=name, property=prop, value=ts))
     for prop, path in w.get("s_timestamps", {}).items():
         base_is_str = isinstance(_get(w["payload"], path), str)
         for y in range(2010, 2101):
@@ -304,7 +307,20 @@ def _inbound(name, tier, res):
                 except Exception as e:  # noqa
                     bad.append(("exception", f"{prop} on {ts}: {type(e).__name__}: {e}"))
                 record((name, prop, ts), True, bad, dict(kind="in", wrapper=name, property=prop, value=ts))
-    for prop, spec in w.get("statuses", {}).items():
+    for prop, path in w.get("iso_timestamps", {}).items():
+        # "YYYY-MM-DD HH:MM:SS[.ffffff]" strings are UTC wall-clock times
+        for y in (2010, 2024, 2038, 2100):
+            for text, exp in ((f"{y}-06-15 12:34:56.123456", datetime.datetime(y, 6, 15, 12, 34, 56, 123456, tzinfo=UTC)),
+                              (f"{y}-01-01 00:00:00.000000", datetime.datetime(y, 1, 1, tzinfo=UTC))):
+                bad = []
+                try:
+                    got = payloads.get_attr(build(path, text), prop)
+                    if got != exp or got.tzinfo is None or got.utcoffset() != datetime.timedelta(0):
+                        bad.append(("iso-timestamp", f"{prop} decoded {text!r} as {got!r}, expected {exp!r}"))
+                except Exception as e:  # noqa
+                    bad.append(("exception", f"{prop} on {text!r}: {type(e).__name__}: {e}"))
+                record((name, prop, text, tag), True, bad, dict(kind="in", wrapper=name, property=prop, value=text))
+    for prop, spec in ({} if only_timestamps else w.get("statuses", {})).items():
         for status, exp in spec["table"].items():
             bad = []
             try:
@@ -394,6 +410,20 @@ def run_scenario(sc, tier):
         asyncio.run(_outbound(sc[1], res))
     elif sc[0] == "sums":
         _sums(sc[1], tier, res)
+    elif sc[0] == "in-tz":
+        import os
+        import time as _time
+        old = os.environ.get("TZ")
+        os.environ["TZ"] = sc[2]
+        _time.tzset()
+        try:
+            _inbound(sc[1], tier, res, only_timestamps=True, tag=sc[2])
+        finally:
+            if old is None:
+                os.environ.pop("TZ", None)
+            else:
+                os.environ["TZ"] = old
+            _time.tzset()
     else:
         _inbound(sc[1], tier, res)
     return res
